@@ -413,8 +413,13 @@ def ordinary_status(ctx, forest):
              (["sb", "-fprintf", "/dev/full", "%p\n", "-o", "-print"], 1, None),
              (["sb/a", "-exec", "true"] + ["a" * 131000] * 15 + ["b" * 126000, "{}", "+"], 1, {}),
              (["sb/a", "-exec", "true"] + ["a" * 131000] * 15 + ["b" * 100000, "{}", "+"], 0, {})]
+    # ... standard output on a full device, whatever action writes there
+    cases += [(["sb"] + a, 1, "full") for a in ([], ["-print"], ["-print0"], ["-ls"], ["-printf", "%p\n"], ["-print", "-exec", "true", ";"])]
     for args, want_rc, env in cases:
-        p = subprocess.run([fw.FIND] + args, stdout=subprocess.PIPE, stderr=subprocess.PIPE, cwd=forest.dir, env=xc.ENV if env is None else env, timeout=120,
+        out = subprocess.PIPE
+        if env == "full":
+            out, env = open("/dev/full", "wb"), None
+        p = subprocess.run([fw.FIND] + args, stdout=out, stderr=subprocess.PIPE, cwd=forest.dir, env=xc.ENV if env is None else env, timeout=120,
                            preexec_fn=lambda: resource.setrlimit(resource.RLIMIT_STACK, (8 << 20, 8 << 20)))
         short = [a if len(a) < 40 else "%s*%d" % (a[0], len(a)) for a in args]
         ctx.count(("ordinary-status", tuple(short)), True, "ordinary-status")
